@@ -29,8 +29,20 @@ class World:
 
 
 def entry(w, gid):
-    loop(w, gid, 0)
-    return ("finished", gid)
+    """the greenlet's entry function IS the depth-0 interpreter (so that extract can be called from call depth 1)"""
+    while True:
+        cmd = w.main.switch(("ready", gid, 0))
+        if cmd[0] == "call":
+            loop(w, gid, 1)
+        elif cmd[0] == "return":
+            return ("finished", gid)
+        elif cmd[0] == "extract":
+            with warnings.catch_warnings(record=True) as wl:
+                warnings.simplefilter("always")
+                st = stackscope.extract(w.g[cmd[1]])
+            w.result = (st, [str(x.message)[:100] for x in wl])
+        elif cmd[0] == "finished":
+            continue
 
 
 def loop(w, gid, depth):
